@@ -71,11 +71,25 @@ fn deliver(w: &mut World, order: &[String], src: &Snap, full_obs: &Obs, torn: u6
             }
             let before = obs(&w.reps[0].m)?;
             w.reps[0].store.set_raw(name, bad);
-            let r = guard("refresh", || w.reps[0].m.refresh())?;
-            w.log.push(format!("deliver #{} {} DAMAGED first; refresh -> {:?}", k, name, r.as_ref().map_err(|e| e.to_string())));
-            let after = obs(&w.reps[0].m)?;
-            if before != after {
-                return viol("C02", format!("a damaged copy of {} changed the visible state: {}", name, first_diff(&before, &after)));
+            if (torn_kind as usize / 3 + k) % 3 == 0 {
+                // the application reacts with a full reload instead (it may be refused with an error and then
+                // leaves the replica empty until the next successful refresh or reload)
+                let r = guard("reload", || w.reps[0].m.reload())?;
+                w.log.push(format!("deliver #{} {} DAMAGED first; reload -> {:?}", k, name, r.as_ref().map_err(|e| e.to_string())));
+                if r.is_ok() {
+                    let after = obs(&w.reps[0].m)?;
+                    if before != after {
+                        return viol("C02", format!("a damaged copy of {} changed the visible state (reload): {}", name, first_diff(&before, &after)));
+                    }
+                }
+                w.bump("c02_reloads_on_torn_items");
+            } else {
+                let r = guard("refresh", || w.reps[0].m.refresh())?;
+                w.log.push(format!("deliver #{} {} DAMAGED first; refresh -> {:?}", k, name, r.as_ref().map_err(|e| e.to_string())));
+                let after = obs(&w.reps[0].m)?;
+                if before != after {
+                    return viol("C02", format!("a damaged copy of {} changed the visible state: {}", name, first_diff(&before, &after)));
+                }
             }
             w.reps[0].store.set_raw(name, bytes.clone());
             w.bump("c02_torn_then_completed_deliveries");
